@@ -87,9 +87,10 @@ class State:
         """
         client_username_str = client_username_bytes.decode("utf-8")
         client_uuid = UUID(client_username_str)
+        permissions = ord(perms)
         self.uuid_to_bytes[client_uuid] = client_username_bytes
         self.paired_clients[client_uuid] = client_public
-        self.client_properties[client_uuid] = {CLIENT_PROP_PERMS: ord(perms)}
+        self.client_properties[client_uuid] = {CLIENT_PROP_PERMS: permissions}
 
     def remove_paired_client(self, client_uuid: UUID) -> None:
         """Remove a given client from dictionary of paired clients.
